@@ -67,7 +67,7 @@ fn window_invariants(w: &World, prop: &str, align: usize) -> Option<Violation> {
 /// exactly the bytes delivered to it minus the bytes consumed by dropped guards.
 pub fn receiver_conservation(w: &World, prop: &str) -> Option<Violation> {
     for (i, r) in w.recvs.iter().enumerate() {
-        if matches!(r.outcome, RecvOutcome::Panic(_) | RecvOutcome::InFlight) {
+        if matches!(r.outcome, RecvOutcome::Panic(_) | RecvOutcome::InFlight | RecvOutcome::Waiting) {
             continue;
         }
         if let RecvOutcome::Msg { drop_panic: Some(_), .. } = r.outcome {
